@@ -1762,6 +1762,11 @@ func (e *Exec) appendOp(fn *ssa.Builtin, args []Value) Value {
 			tmp[i] = copyVal(v)
 		}
 		for i, v := range tmp {
+			// append within capacity writes into the backing array: if that array hangs off a package-level
+			// variable this is a store into shared state like any other
+			if e.checkFrz && e.frozen[&s.B[s.N+i]] {
+				e.check(Bool{C: false}, "assert", "store to package-level state", "append into spare capacity of an array reachable from a package-level variable")
+			}
 			storeInto(&s.B[s.N+i], v)
 		}
 		return Slice{B: s.B, N: s.N + len(add)}
